@@ -1911,7 +1911,44 @@ def g_c08(r, tier, env, Ls):
         p = dict(integ=1, L=r.pick(Ls), csc=r.below(2), kind=r.below(4), ncell=1, ns=1, perm=[0], rx=[([0], [])], k=[k], y=[y0],
                  atol=[1e-12], rtol=1e-9, dt=dt, ptoks=G.be_param_tokens(b))
         cs.append(Case(problem_line(p, clamp=0, trace=0), dict(k=k, y0=y0, dt=dt), "be-linear", oracle=oracle_be_linear, tags=["be_linear"]))
+    # accuracy sentence, Rosenbrock: A -> B with a known solution, every coefficient set and layout, several cells with
+    # very different rate constants, non-uniform per-species tolerances
+    for _ in range(60 if tier == "quick" else 1500):
+        L = r.pick(Ls); ncell = r.rng(1, 2 * max(L, 1) + 2)
+        pname = r.pick(ROS_NAMES)
+        atol = [r.pick([1e-2, 1e-6, 1e-10]), r.pick([1e-2, 1e-6, 1e-10])]
+        p = dict(integ=0, L=L, csc=r.below(2), kind=r.below(4), ncell=ncell, ns=2, perm=r.shuffle(range(2)), rx=[([0], [(1, 1.0)])],
+                 k=[r.pick([1e-9, 1e-3, 1.0, r.logu(1e-2, 1e1)]) for _ in range(ncell)],
+                 y=[v for _ in range(ncell) for v in (r.logu(1e-1, 1e1), r.pick([0.0, r.logu(1e-1, 1e1)]))],
+                 atol=atol, rtol=r.pick([1e-4, 1e-6, 1e-8]), dt=r.logu(1e-1, 1e1), ptoks=G.ros_param_tokens(env["ros"][pname], {}), pname=pname)
+        if r.chance(0.4):
+            # the cells that carry the fast chemistry differ from cell to cell; one species is held to a much tighter
+            # tolerance than the other: a tolerance applied to the wrong species or cell then shows at once
+            p["atol"] = r.pick([[1e-10, 1e-2], [1e-2, 1e-10]]); p["rtol"] = 1e-8
+            p["k"] = [r.pick([1e-9, 1.0, 1.0, 3.0]) for _ in range(ncell)]
+        cs.append(Case(problem_line(p, clamp=1, trace=0), dict(p), "solve", oracle=oracle_ros_accuracy, tags=["ros_accuracy", pname, "L=%d" % L]))
     return cs
+
+def oracle_ros_accuracy(c, out):
+    """A -> B (yield 1): A(t) = A0 exp(-k t), B(t) = B0 + A0 - A(t).  A Converged result must be within a modest multiple
+    (10 x) of (atol_i + rtol |y_i|) per accepted step of the exact solution."""
+    s = parse_solve(out or "")
+    if s is None:
+        return f"Solve did not return a result: '{(out or '')[:80]}'"
+    if s["status"] != "Converged":
+        return None
+    m = c.meta
+    nacc = max(1, s["stats"]["acc"])
+    for cell in range(m["ncell"]):
+        k = m["k"][cell]; A0, B0 = m["y"][2 * cell], m["y"][2 * cell + 1]
+        A = A0 * math.exp(-k * m["dt"]); B = B0 + A0 * (-math.expm1(-k * m["dt"]))
+        for i, (got, ex) in enumerate(((s["y"][2 * cell], A), (s["y"][2 * cell + 1], B))):
+            allow = 10.0 * nacc * (m["atol"][i] + m["rtol"] * abs(ex))
+            if abs(got - ex) > allow + 1e-13 * abs(ex):
+                return (f"Converged, but species {'AB'[i]} in cell {cell} is {got!r}; the exact solution is {ex!r}: off by {abs(got - ex):.3e} = "
+                        f"{abs(got - ex) / (m['atol'][i] + m['rtol'] * abs(ex)):.1f} x (atol + rtol|y|) after {nacc} accepted steps "
+                        f"({m['pname']}, L={m['L']}, cells={m['ncell']}, atol={m['atol']}, rtol={m['rtol']})")
+    return None
 
 def oracle_be_linear(c, out):
     s = parse_solve(out or "")
